@@ -21,7 +21,14 @@ pub fn check_trace(em: &mut Emitter, what: &str, src: &str, p: &vm_core::Program
     counters[1] += ctx.len as u64;
     // power of two, large enough for every component + the random row
     let s = *trace.trace_len_summary();
-    let need = s.main_trace_len().max(s.range_trace_len()).max(s.chiplets_trace_len().trace_len()) + 1;
+    // chiplet rows recomputed from the per-chiplet lengths (+1: the mandatory padding row after the
+    // last chiplet), not taken from the implementation's own total
+    let cl = s.chiplets_trace_len();
+    let chiplet_rows = cl.hash_chiplet_len() + cl.bitwise_chiplet_len() + cl.memory_chiplet_len() + cl.kernel_rom_len() + 1;
+    // main: executed cycles + a HALT row; every component is followed by the random row
+    let need = (s.main_trace_len() + 1).max(s.range_trace_len()).max(chiplet_rows) + 1;
+    // the Lean model of the rule on the same component lengths
+    em.emit(format!("tracelen {} {} {}", s.main_trace_len(), s.range_trace_len(), chiplet_rows - 1), format!("len {}", ctx.len));
     if !ctx.len.is_power_of_two() || ctx.len < need || ctx.len < 64 || (ctx.len / 2 >= need && ctx.len > 64) {
         em.oracle_failures.push(format!("C03 trace length {} is not the least power of two >= max(64, {}) ({}): `{}`", ctx.len, need, what, src));
     }
@@ -69,6 +76,62 @@ pub fn check_trace(em: &mut Emitter, what: &str, src: &str, p: &vm_core::Program
     }
 }
 
+/// (main rows, range rows, chiplet rows without padding) of an execution, None if it fails.
+pub fn shape(p: &vm_core::Program, st: &[u64]) -> Option<(usize, usize, usize)> {
+    let (trace, _) = execute_trace(p, st, &[]).ok()?;
+    let s = *trace.trace_len_summary();
+    let cl = s.chiplets_trace_len();
+    Some((s.main_trace_len(), s.range_trace_len(), cl.hash_chiplet_len() + cl.bitwise_chiplet_len() + cl.memory_chiplet_len() + cl.kernel_rom_len()))
+}
+
+/// Programs whose trace components sit on a power-of-two boundary: for each family (memory-,
+/// hasher+memory-, bitwise-, range-, cycle-dominated, with and without a kernel) the parameter is
+/// searched until the dominant component has exactly 2^k - 2, 2^k - 1 or 2^k rows. These are the
+/// shapes where an off-by-one in the padding / trace-length rule puts a constrained row next to
+/// the random row.
+pub fn boundary_programs(max_per_family: usize) -> Vec<(String, Option<String>, String, Vec<u64>)> {
+    let kernel = "export.k1 push.1 drop end\n".to_string();
+    let families: Vec<(&str, Option<String>, Box<dyn Fn(usize) -> String>)> = vec![
+        ("memory-last chiplets", None, Box::new(|n| format!("begin {} end", (0..n).map(|i| format!("mem_load.{} drop", i % 7)).collect::<Vec<_>>().join(" ")))),
+        ("mem_stream chiplets", None, Box::new(|n| format!("begin repeat.{} mem_stream end mem_load end", n.max(1)))),
+        ("hperm+memory chiplets", None, Box::new(|n| format!("begin {} {} end", vec!["hperm"; 1 + n / 9].join(" "), (0..(n % 9 + 1)).map(|i| format!("mem_load.{} drop", i)).collect::<Vec<_>>().join(" ")))),
+        ("bitwise+memory chiplets", None, Box::new(|n| format!("begin {} {} end", vec!["push.5 push.3 u32and drop"; 1 + n / 9].join(" "), (0..(n % 9)).map(|i| format!("mem_store.{}", i)).collect::<Vec<_>>().join(" ")))),
+        ("kernel-rom-last chiplets", Some(kernel.clone()), Box::new(|n| format!("begin syscall.k1 {} end", (0..n).map(|i| format!("mem_load.{} drop", i % 5)).collect::<Vec<_>>().join(" ")))),
+        ("range table", None, Box::new(|n| format!("begin {} end", (0..n).map(|i| format!("push.{} u32split drop drop", (i as u64 * 7919 + 13) % 65536 + ((i as u64 * 104729) % 65536) * 65536)).collect::<Vec<_>>().join(" ")))),
+        ("cycles", None, Box::new(|n| format!("begin {} end", vec!["push.1 drop"; n.max(1)].join(" ")))),
+        ("cycles (noop tail)", None, Box::new(|n| format!("begin push.3 {} drop end", vec!["neg"; n.max(1)].join(" ")))),
+    ];
+    let mut out = Vec::new();
+    for (name, k, f) in families.iter() {
+        let mut found = 0;
+        let mut seen: std::collections::BTreeSet<(usize, usize)> = Default::default();
+        for n in 1..=140usize {
+            let src = f(n);
+            let p = match assemble(k.as_deref(), &src, false) {
+                Ok(p) => p,
+                Err(_) => continue,
+            };
+            let (m, r, c) = match shape(&p, &[]) {
+                Some(x) => x,
+                None => continue,
+            };
+            // the dominant component decides the trace length
+            let (dom, which) = if c + 1 >= m && c + 1 >= r { (c, 2usize) } else if r >= m { (r, 1) } else { (m, 0) };
+            for kk in 6..=9u32 {
+                let pw = 1usize << kk;
+                if dom + 2 >= pw && dom <= pw && seen.insert((which, dom)) {
+                    out.push((format!("{}: {} rows of the dominant component (main {}, range {}, chiplets {})", name, dom, m, r, c), k.clone(), src.clone(), vec![]));
+                    found += 1;
+                }
+            }
+            if found >= max_per_family {
+                break;
+            }
+        }
+    }
+    out
+}
+
 pub fn generate(em: &mut Emitter, seed: u64, thorough: bool) {
     let mut rng = Rng::new(seed ^ 0xC03);
     let mut counters = [0u64; 4];
@@ -114,6 +177,14 @@ pub fn generate(em: &mut Emitter, seed: u64, thorough: bool) {
         let mem_heavy = format!("begin {} end", (0..(20 + 20 * k)).map(|i| format!("push.{} mem_store.{} mem_load.{} drop", i, i * 3, i * 3)).collect::<Vec<_>>().join(" "));
         if let Ok(p) = assemble(None, &mem_heavy, false) {
             check_trace(em, "memory-dominated", "mem_store/mem_load x N", &p, &[], &[], &mut rng, &mut counters);
+        }
+    }
+    // (4) power-of-two boundary shapes of every trace component
+    let bp = boundary_programs(if thorough { 12 } else { 6 });
+    em.stat("boundary_shape_programs", bp.len());
+    for (what, k, src, st) in bp.iter() {
+        if let Ok(p) = assemble(k.as_deref(), src, false) {
+            check_trace(em, what, &src[..src.len().min(200)], &p, st, &[], &mut rng, &mut counters);
         }
     }
     em.stat("traces_checked", counters[0]);
